@@ -22,14 +22,19 @@ def conv(tokens):
     raise SystemExit('bad token ' + t)
 tokens = re.findall(r'\(|\)|[xn][0-9a-f]*', sx)
 term = conv(tokens)
-mod = 'C%02d' % int(num)
-expr = expr or ('%s.explain c' % mod)
+n = int(num)
+if n in (3, 8, 11, 15):
+    mod, imp, dec = 'SST', 'SSTC', 'SSTC.decode_c%02d' % n
+else:
+    mod = imp = 'C%02d' % n
+    dec = '%s.decode' % mod
+expr = expr or ('%s.explain c' % imp)
 src = '''From GoSST Require Import Base.Bytes Base.Sx Corr.%s.
 From Coq Require Import String.
 Import %s.
 Definition s : sx := %s.
-Definition r := Eval vm_compute in (match %s.decode s with Some c => Some (%s) | None => None end).
+Definition r := Eval vm_compute in (match %s s with Some c => Some (%s) | None => None end).
 Print r.
-''' % (mod, mod, term, mod, expr)
+''' % (mod, imp, term, dec, expr)
 open('/tmp/explain.v', 'w').write(src)
-print(subprocess.run(['coqc', '-Q', '/verif/coq/theories', 'GoSST', '/tmp/explain.v'], capture_output=True, text=True, cwd='/tmp').stdout[-6000:])
+print(subprocess.run(['coqc', '-Q', '/verif/coq/theories', 'GoSST', '-Q', '/verif/coq/gen', 'GoSSTGen', '/tmp/explain.v'], capture_output=True, text=True, cwd='/tmp').stdout[-6000:])
